@@ -41,6 +41,9 @@ pub struct Cfg {
     /// vault only: set the three flags with three separate partial updates, in this order (0..6)
     #[serde(default)]
     pub partial_order: Option<u8>,
+    /// set the toggles in the same update message as a fee change (as an operator would through the factory)
+    #[serde(default)]
+    pub combined: bool,
 }
 
 #[derive(Serialize, Deserialize, Clone, Debug, PartialEq)]
@@ -168,9 +171,11 @@ impl Toggle {
         let d = bits & 1 != 0;
         let w = bits & 2 != 0;
         let s = bits & 4 != 0;
+        let f = fee3();
+        let comb = self.cfg.combined;
         let msg = match self.cfg.target {
-            Target::PairCp | Target::PairStable => wasm_exec(&self.pool_factory, &factory::ExecuteMsg::UpdatePairConfig { pair_addr: self.pair.clone(), owner: None, fee_collector_addr: None, pool_fees: None, feature_toggle: Some(pair::FeatureToggle { withdrawals_enabled: w, deposits_enabled: d, swaps_enabled: s }) }, vec![]),
-            Target::Trio => wasm_exec(&self.pool_factory, &factory::ExecuteMsg::UpdateTrioConfig { trio_addr: self.trio.clone(), owner: None, fee_collector_addr: None, pool_fees: None, feature_toggle: Some(trio::FeatureToggle { withdrawals_enabled: w, deposits_enabled: d, swaps_enabled: s }), amp_factor: None }, vec![]),
+            Target::PairCp | Target::PairStable => wasm_exec(&self.pool_factory, &factory::ExecuteMsg::UpdatePairConfig { pair_addr: self.pair.clone(), owner: None, fee_collector_addr: if comb { Some(COLLECTOR.into()) } else { None }, pool_fees: if comb { Some(pair::PoolFee { protocol_fee: f[0].clone(), swap_fee: f[1].clone(), burn_fee: f[2].clone() }) } else { None }, feature_toggle: Some(pair::FeatureToggle { withdrawals_enabled: w, deposits_enabled: d, swaps_enabled: s }) }, vec![]),
+            Target::Trio => wasm_exec(&self.pool_factory, &factory::ExecuteMsg::UpdateTrioConfig { trio_addr: self.trio.clone(), owner: None, fee_collector_addr: if comb { Some(COLLECTOR.into()) } else { None }, pool_fees: if comb { Some(trio::PoolFee { protocol_fee: f[0].clone(), swap_fee: f[1].clone(), burn_fee: f[2].clone() }) } else { None }, feature_toggle: Some(trio::FeatureToggle { withdrawals_enabled: w, deposits_enabled: d, swaps_enabled: s }), amp_factor: None }, vec![]),
             Target::Vault => {
                 if let Some(order) = self.cfg.partial_order {
                     // three partial updates, one flag each; an update must not touch the other flags
@@ -194,7 +199,7 @@ impl Toggle {
                     }
                     return last.unwrap();
                 }
-                wasm_exec(&self.vault_factory, &vault_factory::ExecuteMsg::UpdateVaultConfig { vault_addr: self.vault.clone(), params: vault::UpdateConfigParams { flash_loan_enabled: Some(s), deposit_enabled: Some(d), withdraw_enabled: Some(w), new_owner: None, new_vault_fees: None, new_fee_collector_addr: None } }, vec![])
+                wasm_exec(&self.vault_factory, &vault_factory::ExecuteMsg::UpdateVaultConfig { vault_addr: self.vault.clone(), params: vault::UpdateConfigParams { flash_loan_enabled: Some(s), deposit_enabled: Some(d), withdraw_enabled: Some(w), new_owner: None, new_vault_fees: if comb { Some(VaultFee { protocol_fee: f[0].clone(), flash_loan_fee: f[1].clone(), burn_fee: f[2].clone() }) } else { None }, new_fee_collector_addr: if comb { Some(COLLECTOR.into()) } else { None } } }, vec![])
             }
         };
         tx(&mut self.app, OWNER, vec![msg], Fault::None)
@@ -227,7 +232,8 @@ impl Scenario for Toggle {
         };
         let amount = rng.range128(200_000, 5_000_000_000);
         let partial_order = if rng.chance(1, 2) { Some(rng.below(6) as u8) } else { None };
-        Cfg { target, bits: ((i / 2) % 8) as u8, funded: i % 2 == 1, amount, case_index: i, partial_order }
+        let combined = rng.chance(1, 2);
+        Cfg { target, bits: ((i / 2) % 8) as u8, funded: i % 2 == 1, amount, case_index: i, partial_order, combined }
     }
 
     fn max_steps(_cfg: &Cfg) -> usize {
